@@ -722,6 +722,13 @@ func (ce *callEngine) callNativeFunc(ctx context.Context, m *wasm.ModuleInstance
 			if err := m.FailIfClosed(); err != nil {
 				panic(err)
 			}
+			// m is the module of the immediate caller. On context cancellation it is the module of the
+			// top-level call which gets closed, and that differs from m inside imported functions.
+			if root := ce.f.moduleInstance; root != m {
+				if err := root.FailIfClosed(); err != nil {
+					panic(err)
+				}
+			}
 			frame.pc++
 		case operationKindUnreachable:
 			panic(wasmruntime.ErrRuntimeUnreachable)
